@@ -11,6 +11,7 @@
                               statement (a constructed-but-not-thrown exception is an expression statement)
   uncheckedTokenAccess        some `tokens[…]` / `split[…]` access bypasses `.at()`
   nextLineChecked             every next-line read goes through `lines_.at(++i_)`
+  nanDiscountRejected         MDP::Model::setDiscount's guard is written so that NaN fails it (src/MDP/Model.cpp)
   sizeGuard                   parseMDP / parsePOMDP call `checkExtent(S, A, S)` (and `(S, A, O)`) before resizing the
                               tables, and checkExtent has the overflow-safe shape the model assumes
 
@@ -168,6 +169,18 @@ def gen_c18():
     m_bind, m_call = ctor(mb, r'\[([^\]]*)\]\s*=\s*parser\.parseMDP\s*\(\s*input\s*\)', r'return\s+Model\s*\(([^)]*)\)', 'MDP::parseCassandra')
     p_bind, p_call = ctor(pb, r'\[([^\]]*)\]\s*=\s*parser\.parsePOMDP\s*\(\s*input\s*\)', r'return\s+Model<MDP::Model>\s*\(([^)]*)\)', 'POMDP::parseCassandra')
 
+    # the discount guard reached through the Model constructor
+    mm = E.strip_comments(E.read('src/MDP/Model.cpp'))
+    sd, sd_ln = body_of(mm, r'void\s+Model::setDiscount\s*\(\s*const\s+double\s+d\s*\)\s*\{', 'MDP::Model::setDiscount')
+    mg = E.find1(r'if\s*\((.*?)\)\s*throw\s+std::invalid_argument', sd, 'setDiscount guard', re.S)
+    g = norm(mg.group(1))
+    if g in ('d<=0.0||d>1.0', 'd<=0||d>1'):
+        nan_rej = False
+    elif re.fullmatch(r'!\(d>0(\.0)?&&d<=1(\.0)?\)', g) or re.fullmatch(r'std::isnan\(d\)\|\|d<=0(\.0)?\|\|d>1(\.0)?', g) or re.fullmatch(r'!\(d>0(\.0)?\)\|\|!\(d<=1(\.0)?\)', g):
+        nan_rej = True
+    else:
+        raise E.ExtractError('MDP::Model::setDiscount: unrecognised guard ' + g)
+
     b = lambda x: 'true' if x else 'false'
     strs = lambda l: '[' + ', '.join('"%s"' % x for x in l) + ']'
     body = f'''/- GENERATED by tools/extract_c18.py from {REL} — do not edit. -/
@@ -206,8 +219,11 @@ def mdpCtorArgs : List String := {strs(m_call)}
 def pomdpBinding : List String := {strs(p_bind)}
 def pomdpCtorArgs : List String := {strs(p_call)}
 
+/-- src/MDP/Model.cpp:{sd_ln} the guard of `Model::setDiscount` is false for NaN (`{g}`) -/
+def nanDiscountRejected : Bool := {b(nan_rej)}
+
 /-- the flags the operational model runs with -/
-def flags : AITB.Cassandra.Flags := ⟨rowLenThrows, sizeGuard⟩
+def flags : AITB.Cassandra.Flags := ⟨rowLenThrows, sizeGuard, nanDiscountRejected⟩
 
 end AITB.Gen.Dispatch
 '''
